@@ -31,8 +31,10 @@ EXTENDS Integers, Sequences, FiniteSets, TLC, Json
 \* make the two agree.  Every honest receiver complains, finds the answer wrong and disqualifies the dealer.
 Relations == {"none", "div-x", "mul-x", "shift-1", "shift+1", "neg", "plus-c", "double", "reverse",
               "garbage-after-identity",       \* a malformed vector: A_0, the identity, then bytes that encode no point; every share is a_0
-              "two-answers-before-vector"}    \* two receivers are sent malformed shares and complain; both complaints are answered before the
+              "two-answers-before-vector",    \* two receivers are sent malformed shares and complain; both complaints are answered before the
                                               \* vector is broadcast, one answer right, one wrong
+              "answer-complaint-vector"}      \* a receiver complains about a malformed share; the others see the dealer's wrong answer first, then
+                                              \* the complaint, then the vector
 Shapes == {"generic", "zero-const", "zero-middle", "zero-lead", "root", "equal", "rminus1", "two-zeros", "cancel",
            "own-root"}   \* Joint-Feldman, a rushing dealer: P(own point) = minus the sum of the shares the others sent it: its own summed share is zero
 \* (protocol, n, t, reference dealer, participant that is not running or -1)
@@ -51,12 +53,14 @@ RelApplicable(shape, rel) ==
     [] rel = "div-x" -> shape = "zero-const"            \* Q = P / x is a polynomial only then
     [] rel = "garbage-after-identity" -> shape = "zero-middle"
     [] rel = "two-answers-before-vector" -> shape = "generic"
+    [] rel = "answer-complaint-vector" -> shape = "generic"
     [] OTHER         -> shape = "generic"
 Init == c \in {[proto |-> net[1], n |-> net[2], t |-> net[3], dealer |-> net[4], silent |-> net[5], shape |-> s, order |-> o, relation |-> r] :
                  net \in Nets, s \in Shapes, o \in 0..2, r \in Relations}
         /\ Applicable(<<c.proto, c.n, c.t, c.dealer, c.silent>>, c.shape)
         /\ RelApplicable(c.shape, c.relation)
         /\ (c.relation = "two-answers-before-vector" => c.proto = "qual" /\ c.n - 1 - (IF c.silent >= 0 THEN 1 ELSE 0) >= 3)
+        /\ (c.relation = "answer-complaint-vector" => c.n - 1 - (IF c.silent >= 0 THEN 1 ELSE 0) >= 2 /\ c.order = 0)
         /\ (c.relation # "none" => c.order \in {0, 1})
 Next == UNCHANGED c
 Spec == Init /\ [][Next]_c
